@@ -10,5 +10,6 @@ CONSTANTS
   Handlers = {"ok"}
   ViewHist = 0
   ErrKinds = {"str","tbl","pos","pos2","num","nilv","rt"}
-  XHandlers = {"val","none"}
+  XHandlers = {"val","none","nilval"}
   Battery = TRUE
+  EmitAll = FALSE
